@@ -101,7 +101,7 @@ def _adv_dataset(rng, d, regression):
 
 
 def _history(rng, cls, index, ndata, tier="quick"):
-    kinds = ["fit0", "fit1", "predict", "predict_none", "restart", "clone", "ambient"]
+    kinds = ["fit0", "fit1", "predict", "predict_none", "restart", "clone", "ambient", "scribble"]
     if ndata > 2:
         kinds.append("fit2")
     if cls in ("ADVC", "ADVR"):
@@ -256,15 +256,48 @@ def factory(plan):
              random_state=cfg["rs"])
 
 
-def do_fit(plan, est, k):
+def fit_args(plan, k):
+    """The caller's training objects for data set k (kept, so that the caller can scribble on them later)."""
     cls = plan["cls"]
     ds = plan["data"][k]
+    ctx = kernel.current()
+    held = ctx.scratch.setdefault("train_objects", {})
     if cls in ("TO", "EG", "GS", "EGR"):
         X, y, g = _xy(plan, k)
-        return est.fit(X, y, sensitive_features=g)
+        held[k] = [X, y, g]
+        return (X, y), {"sensitive_features": g}
     if cls == "CR":
-        return est.fit(_cr_X(plan, ds))
-    return est.fit(np.array(ds["X"], dtype=float), np.array(ds["y"]), sensitive_features=np.array(ds["a"]))
+        X = _cr_X(plan, ds)
+        held[k] = [X]
+        return (X,), {}
+    X, y, a = np.array(ds["X"], dtype=float), np.array(ds["y"]), np.array(ds["a"])
+    held[k] = [X, y, a]
+    return (X, y), {"sensitive_features": a}
+
+
+def do_fit(plan, est, k):
+    args, kw = fit_args(plan, k)
+    return est.fit(*args, **kw)
+
+
+def scribble_training_objects(ctx):
+    """The caller overwrites, in place, every training object it handed to an earlier fit (a fitted model
+    must not depend on what happens to the caller's arrays afterwards)."""
+    n = 0
+    for k, objs in list(ctx.scratch.get("train_objects", {}).items()):
+        for o in objs:
+            try:
+                if isinstance(o, pd.DataFrame):
+                    o.iloc[:, :] = 0.0
+                elif isinstance(o, np.ndarray) and o.dtype.kind in "fiu":
+                    o[...] = 0
+                n += 1
+            except (ValueError, TypeError):
+                pass
+    # later fits must see the planned content again: drop the cached (now scribbled) X objects
+    ctx.scratch.pop("xcache", None)
+    ctx.scratch["train_objects"] = {}
+    return n
 
 
 def _cr_X(plan, ds):
@@ -586,6 +619,20 @@ def execute(plan, ctx):
             fitted_on = None
             origin = "clone"
             last_answers = {}
+        elif op == "scribble":
+            before_obs = None
+            if fitted_on is not None:
+                probe = copy_probe(shared_probe(plan, fitted_on, ctx))
+                okb, before_obs, _ = ctx.call(observe, plan, est, fitted_on, plan["seeds"][2], probe)
+            nobj = scribble_training_objects(ctx)
+            ctx.fault("training_arrays_overwritten_in_place", nobj)
+            refs.clear()  # reference estimators were fitted on the same (now scribbled) objects: rebuild when needed
+            if fitted_on is not None and before_obs is not None and okb:
+                oka, after_obs, site = ctx.call(observe, plan, est, fitted_on, plan["seeds"][2], copy_probe(probe))
+                if not oka or not same(before_obs, after_obs, tol=0):
+                    ctx.fail("C19.depends_on_caller_arrays", f"{cls}: after the caller overwrote its training arrays in place the fitted "
+                             f"estimator answers differently ({first_diff(before_obs, after_obs) if oka else type(after_obs).__name__})", sigbase)
+                    return
         elif op == "ambient":
             kind, val = amb.next()
             ctx.fault("ambient_rng")
